@@ -63,6 +63,10 @@ def run_impl(case):
     style = rnd.choice(["random", "transfers", "transfers"])
     bus = dut.wb_bus
     aw = len(bus.adr)
+    if (1 << aw) != depth:
+        fails.append(("C15", f"WishboneSRAM(size={size}, data_width={dw}, granularity={gran}) holds {depth} word(s) but its bus has {aw} address "
+                             f"bit(s): " + ("several word addresses reach the same word (a write to one changes what another reads)" if (1 << aw) > depth
+                                            else "some words cannot be addressed"), 0))
     final = {}
 
     async def tb(ctx):
